@@ -104,7 +104,9 @@ def recordMetrics():
       avgUpdateTime = sum(updateTimes) / len(updateTimes)
       record('avgUpdateTime', avgUpdateTime)
 
-    if committedPoints:
+    if committedPoints and updateTimes:
+      # The writer thread bumps committedPoints and appends to updateTimes in two
+      # steps; a tick landing in between must not divide by zero.
       pointsPerUpdate = float(committedPoints) / len(updateTimes)
       record('pointsPerUpdate', pointsPerUpdate)
 
